@@ -228,6 +228,9 @@ func loadIR(ctx *Ctx, res *CaseResult, dir string, w *Workload) (irObjects, bool
 	ctx.Account(ex)
 	res.Execs++
 	if ex.Panic != nil || obs == nil || obs.ErrLoad != "" || obs.IRLoad == "" {
+		if ctx.OptBool("verbose") && obs != nil {
+			fmt.Fprintf(os.Stderr, "LOADIR %s: %s\n", w.Name, truncate(obs.ErrLoad, 300))
+		}
 		return nil, false
 	}
 	return objectsOf(obs.IRLoad), true
@@ -492,7 +495,13 @@ func init() {
 				wa, wb, wab, pkg, mode := genMergeWorkloads(r)
 				sample["mode"], sample["package"] = mode, pkg
 				res.Nontrivial = append(res.Nontrivial, ShaStr("d"+wab.Fingerprint()))
+				okBefore := ctx.Stats.Counters["d.merge_ok"]
 				key, d := c07Merge(ctx, res, dir, wa, wb, wab, pkg)
+				if ctx.Stats.Counters["d.merge_ok"] > okBefore {
+					ctx.Count("d.merge_ok."+mode, 1)
+				} else {
+					ctx.Count("d.merge_not_ok."+mode, 1)
+				}
 				if key == "" {
 					// and in the other order
 					rev := wab.Clone()
@@ -605,23 +614,25 @@ func genMergeWorkloads(r *Rand) (wa, wb, wab *Workload, pkg string, mode string)
 	base := func() *Workload {
 		return &Workload{Files: map[string]string{}, Languages: []LangSpec{{Name: "typescript", Flags: map[string]string{}}}, Types: true}
 	}
-	pa := GenPackage(r.Fork("a"), pkg, GenOpts{NoAllOf: true})
+	seedA, seedB := r.U64(), r.U64()
+	pa := GenPackage(NewRand(seedA), pkg, GenOpts{NoAllOf: true})
 	var pb *WPackage
 	switch mode {
 	case "identical":
 		pb = pa
 	case "disjoint":
-		pb = GenPackage(r.Fork("b"), pkg, GenOpts{NoAllOf: true})
+		pb = GenPackage(NewRand(seedB), pkg, GenOpts{NoAllOf: true})
 		renameAll(pb, "B")
 	case "conflicting":
-		pb = GenPackage(r.Fork("a"), pkg, GenOpts{NoAllOf: true})
+		// the same package again (same seed), then one definition is changed
+		pb = GenPackage(NewRand(seedA), pkg, GenOpts{NoAllOf: true})
 		// same names, one definition changed
 		o := &pb.Objects[r.Intn(len(pb.Objects))]
 		o.T = &WType{K: "struct", Fields: []WField{{Name: "conflicting_field", T: &WType{K: "bool"}, Required: true}}}
 	default:
 		// B = A's objects (identical) + extra objects of its own
-		pb = GenPackage(r.Fork("a"), pkg, GenOpts{NoAllOf: true})
-		extra := GenPackage(r.Fork("b"), pkg, GenOpts{NoAllOf: true})
+		pb = GenPackage(NewRand(seedA), pkg, GenOpts{NoAllOf: true})
+		extra := GenPackage(NewRand(seedB), pkg, GenOpts{NoAllOf: true})
 		renameAll(extra, "B")
 		pb.Objects = append(pb.Objects, extra.Objects...)
 	}
